@@ -540,27 +540,29 @@ class BaseCurve(Intface_BaseCurve):
         if oldctrlpoints is None and oldweights is None:
             self.knotvector = newknotvector
             return
+        newknotvector = KnotVector(newknotvector)
+        newweights = None
+        newctrlpoints = None
+        if oldweights is None:
+            newctrlpoints = np.dot(matrix, oldctrlpoints)
+        else:
+            newweights = tuple(np.dot(matrix, oldweights))
+            if heavy.find_roots(tuple(newknotvector), newweights):
+                raise ValueError("Zero division in the new weights")
+            if oldctrlpoints is not None:
+                numerators = [wei * pt for wei, pt in zip(oldweights, oldctrlpoints)]
+                newctrlpoints = []
+                for i, line in enumerate(matrix):
+                    newctrlpoints.append(0 * numerators[0])
+                    for j, point in enumerate(numerators):
+                        newpoint = line[j] * point
+                        newpoint /= newweights[i]
+                        newctrlpoints[i] += newpoint
         self.ctrlpoints = None
         self.weights = None
         self.knotvector = newknotvector
-        if oldweights is None:
-            self.ctrlpoints = np.dot(matrix, oldctrlpoints)
-            return
-        newweights = np.dot(matrix, oldweights)
         self.weights = newweights
-
-        if oldctrlpoints is not None:
-            oldctrlpoints = list(oldctrlpoints)
-            for i, weight in enumerate(oldweights):
-                oldctrlpoints[i] *= weight
-            newctrlpoints = []
-            for i, line in enumerate(matrix):
-                newctrlpoints.append(0 * oldctrlpoints[0])
-                for j, point in enumerate(oldctrlpoints):
-                    newpoint = line[j] * point
-                    newpoint /= self.weights[i]
-                    newctrlpoints[i] += newpoint
-            self.ctrlpoints = newctrlpoints
+        self.ctrlpoints = newctrlpoints
 
 
 class Curve(BaseCurve):
